@@ -247,4 +247,14 @@ theorem indication_progress_partial (s : Spec) (hw : WFs s.levels) (i : Nat)
 
 example : ((Spec.init [2]).step (.queue .indication 1)).1.pending 1 .indication = true := by decide
 
+/-- **C11** "a confirmation with a wrong length is rejected": a Handle Value Confirmation PDU with
+    anything after the opcode is answered with Error Response / Invalid PDU (0x04) and does not
+    confirm (the queue, in particular the outstanding indication, is unchanged) … -/
+theorem bad_length_confirmation_rejected (q : Queue) (op b : UInt8) (rest : List UInt8) :
+    handleValueConfirmation q (op :: b :: rest) = (q, [0x01, op, 0x00, 0x00, 0x04]) := rfl
+
+/-- … while the one-byte PDU confirms and is not answered -/
+theorem good_confirmation_confirms (q : Queue) (op : UInt8) :
+    handleValueConfirmation q [op] = ({ q with outstanding := none }, []) := rfl
+
 end BluetoeModel.NotifQueue
